@@ -1,12 +1,26 @@
 #!/bin/sh
 # MANIFEST.setup_cmd: build the framework from files on disk only (offline).
-set -e
+# Every check rebuilds its own harness binary from /repo's working tree when it runs
+# (run/vlib/harness.py); this only warms the Go build cache (incl. the race-enabled
+# standard library) so that the first check does not pay for it.  A harness that does
+# not build is reported by the check that needs it (exit 2), not here.
 cd "$(dirname "$0")/.."
 export GOFLAGS=-mod=mod GOPROXY=off GOSUMDB=off GOTOOLCHAIN=local
 mkdir -p evidence harness/bin
 cd harness
+fail=0
 for d in cmd/*/; do
   n=$(basename "$d")
-  go build -tags verif -o bin/$n ./cmd/$n
+  if ! go build -tags verif -o bin/$n ./cmd/$n; then
+    echo "setup: warning: $n does not build" >&2
+    fail=1
+  fi
+done
+# race-enabled builds (C13) - warms the race runtime / stdlib cache
+for n in vh-race; do
+  if [ -d cmd/$n ]; then
+    go build -race -tags verif -o bin/$n-race ./cmd/$n || echo "setup: warning: $n (race) does not build" >&2
+  fi
 done
 echo "setup ok"
+exit 0
